@@ -49,7 +49,7 @@ def slice_unit(prop, name, builder, K, timeout_s=900, params=None):
         res.transitions = len(sl.sys.transitions) * K
         res.states = sum(len(t.locs) + 3 for t in sl.sys.threads) * (K + 1)
         b = BMC(sl.sys, K, timeout_s=timeout_s)
-        b.init_extra = spec["init"]
+        b.init_extra = z3.And(spec["init"], *sl.S.domain)
 
         def replay(r):
             steps = [e for e in r.trace if not e.get("idle")]
